@@ -889,6 +889,35 @@ def build_then(case):
     return all_texts(blk)
 
 
+BLIF_TICK = ('.model gated\n.inputs clk tick d\n.outputs q y\n.names tick d n\n11 1\n.latch n q re clk 0\n.names q tick y\n10 1\n.end\n')
+BLIF_OTHER = ('.model other\n.inputs tick a\n.outputs o p\n.names tick ck2\n1 1\n.latch a o re ck2 1\n.names a p\n0 1\n.end\n')
+
+
+def run_rebuild(case, ob, site):
+    """building the same design again later in the same process (after other designs were built and imported) gives the same
+    texts and the same trace: nothing is carried from one build to the next"""
+    def build():
+        pyrtl.reset_working_block()
+        pyrtl.input_from_blif(BLIF_TICK)
+        b = pyrtl.working_block()
+        return all_texts(b)
+    first = build()
+    # other work in between: an import whose clock has another name (the name of a data input of the first design), a design
+    # built with the API, an analysis
+    pyrtl.reset_working_block()
+    pyrtl.input_from_blif(BLIF_OTHER, clock_name='tick')
+    pyrtl.reset_working_block()
+    designs.build({'fam': 'DET', 'kind': 'small'})
+    pyrtl.TimingAnalysis()
+    try:
+        second = build()
+    except Exception as e:
+        return ob.fact('same-design-builds-again-later-in-the-process', False, site + ':raises', detail=repr(e))
+    names = EMITTERS
+    for n_, x, y in zip(names, first, second):
+        ob.fact('same-%s-text-when-built-again-later' % n_, x == y, site + ':' + n_)
+
+
 def run_build_determinism(case, ob, site):
     # number of wires the build creates (deterministic): one plain build
     with build_order_env() as counter:
@@ -1060,7 +1089,7 @@ def run_keys(case, ob, site):
 
 
 def cases(tier, seed):
-    out = [{'k': 'keys'}]
+    out = [{'k': 'keys'}, {'k': 'rebuild'}]
     dets = [{'fam': 'DET', 'kind': 'small'}, {'fam': 'DET', 'kind': 'bad_names'}, {'fam': 'DET', 'kind': 'tie_names', 'names': ['a1', 'a01']},
             {'fam': 'DET', 'kind': 'mem'}, {'fam': 'DET', 'kind': 'case_names'}, {'fam': 'DET', 'kind': 'mem3'},
             {'fam': 'DET', 'kind': 'mem_shared_we'}, {'fam': 'DET', 'kind': 'two_roms'}]
@@ -1104,12 +1133,14 @@ def site_of(c):
         return 'C20:build-determinism:%s%s' % (c['kind'], ':then-' + c['then'] if c.get('then') else '')
     if c['k'] == 'pass_order':
         return 'C20:pass-order:%s:%s' % (c['pas'], c['kind'])
+    if c['k'] == 'rebuild':
+        return 'C20:rebuild-later-in-the-process'
     return 'C20:readonly:%s' % c['call']
 
 
 def run_case(case, ob, tier):
     {'keys': run_keys, 'determinism': run_determinism, 'readonly': run_readonly, 'build': run_build_determinism,
-     'pass_order': run_pass_order}[case['k']](case, ob, site_of(case))
+     'pass_order': run_pass_order, 'rebuild': run_rebuild}[case['k']](case, ob, site_of(case))
 
 
 def replay(cex):
